@@ -18,7 +18,7 @@ Lemma spec_str s rest : len s < 65536 -> p_str (enc_bin s ++ rest) = Some (s, re
 Proof.
   intros H. unfold p_str, enc_bin. rewrite N.mod_small by lia. rewrite <- app_assoc.
   rewrite spec_u16 by lia. unfold take.
-  rewrite (proj2 (Nat.leb_le _ _)) by (rewrite app_length; unfold len; lia).
+  rewrite (proj2 (N.leb_le _ _)) by (rewrite len_app; lia).
   replace (N.to_nat (len s)) with (length s) by (unfold len; lia).
   rewrite firstn_app, Nat.sub_diag, firstn_all. cbn [firstn]. rewrite app_nil_r.
   rewrite skipn_app, skipn_all, Nat.sub_diag. reflexivity.
